@@ -49,6 +49,66 @@ def _is_test_ty(F, ty):
     return t.split("::")[-1].startswith("Mock") or "::tests::" in t or "::test::" in t
 
 
+def rpc_impl_methods(F, names):
+    out = []
+    for k in sorted(F.fns):
+        mt = re.match(r"^<(.+) as rpc::ClnRpc>::(\w+)$", k)
+        if mt and mt.group(2) in names and not _is_test_ty(F, mt.group(1)):
+            out.append((k, mt.group(1), mt.group(2)))
+    return out
+
+
+def e_rpc_error_kept(C, rep, rid):
+    rep.rule(rid, "the ClnRpc implementation hands the node's JSON-RPC error (with its numeric code) on as RpcError::Rpc: on its way from call_typed to the caller it is never turned into an anyhow::Error / RpcError::General - wait_payment and pay dispatch on that code")
+    F, X = C.F, C.X
+    ms = rpc_impl_methods(F, ("waitsendpay", "listsendpays", "pay"))
+    rep.anchor(rid, "ClnRpc implementation methods (pay, listsendpays, waitsendpay)", len(ms), 3)
+    for k, ty, mn in ms:
+        grp = F.group(k)
+        ct = [c for g in grp for c in g.calls if c.name == "cln_rpc::ClnRpc::call_typed" and not c.noise]
+        rep.anchor(rid, "%s::%s: call_typed" % (ty.split("::")[-1], mn), len(ct), 1, fn=k)
+        bad = []
+        conv = 0
+        for g in grp:
+            for c in g.calls:
+                if c.noise:
+                    continue
+                f = c.full or ""
+                m2 = re.match(r"^<std::result::Result<.*, ([\w:]+(?:<.*>)?)> as std::ops::FromResidual<std::result::Result<std::convert::Infallible, ([\w:]+)>>>::from_residual$", f)
+                if m2 and m2.group(2) == "cln_rpc::RpcError":
+                    conv += 1
+                    if m2.group(1) != "rpc::RpcError":
+                        bad.append((c, "`?` converts it into %s" % m2.group(1)))
+                if re.search(r"<anyhow::Error as std::convert::From<cln_rpc::RpcError>>::from|<cln_rpc::RpcError as std::convert::Into<anyhow::Error>>::into", f):
+                    bad.append((c, "converted into anyhow::Error"))
+                if c.name in ("anyhow::Context::context", "anyhow::Context::with_context") and "cln_rpc::RpcError>" in f:
+                    bad.append((c, "wrapped by anyhow::Context"))
+                if c.name == "std::result::Result::map_err" and "cln_rpc::RpcError" in f and "anyhow::Error" in f:
+                    bad.append((c, "map_err into anyhow::Error"))
+        rep.ob(rid, not bad, k, "%s: the node's error keeps its code" % mn, where=bad[0][0].loc if bad else (ct[0].loc if ct else ""), how="%d direct conversion(s) cln_rpc::RpcError -> rpc::RpcError" % conv,
+               detail="" if not bad else "the error of call_typed is %s at %s: the numeric code is lost, the caller sees RpcError::General (wait_payment then aborts on a tolerated part failure; pay's dispatch changes)" % (bad[0][1], bad[0][0].loc))
+
+
+def g_getinfo_is_fresh(C, rep, rid):
+    rep.rule(rid, "every get_info of the ClnRpc implementation asks the node: the returned info is the awaited result of a call_typed made in that call (no cached copy - the periodic poll must see the node's current height)")
+    F, X = C.F, C.X
+    ms = rpc_impl_methods(F, ("get_info",))
+    rep.anchor(rid, "ClnRpc implementation of get_info", len(ms), 1)
+    for k, ty, mn in ms:
+        n = 0
+        for g in F.group(k):
+            if not g.coroutine or g.cdef != k + "::{closure#0}":
+                continue
+            for kind, e, site, w in result_alternatives(g, X):
+                if kind != "Ok" or e is None:
+                    continue
+                n += 1
+                ok = all(any(y[0] == "call" and y[1] == "cln_rpc::ClnRpc::call_typed" and y[3][0] in {x.cdef for x in F.group(k)} for y in walk(a)) and
+                         not any(y[0] == "call" and ("OnceCell" in y[1] or "OnceLock" in y[1] or "Lazy" in y[1]) for y in walk(a)) for a in alts(e))
+                rep.ob(rid, ok, k, "returned info comes from this call's RPC", where=w, how=show(e)[:80], detail="" if ok else "get_info returns %s: not (only) the reply of an RPC made by this call" % show(e)[:120])
+        rep.anchor(rid, "Ok exits of get_info", n, 1, fn=k)
+
+
 def need_provider(C, rep, rid):
     ms = provider_model(C)
     ok = rep.anchor(rid, "non-test impl of PaymentProvider", len(ms), 1)
@@ -532,6 +592,8 @@ def v_wait_payment(C, rep, pfx):
                     if (callee in F.fns or F.group(callee)) and callee not in seen and len(path) < 8:
                         stack.append((callee, lbl, path + [callee.split("::")[-1]]))
         rep.ob(rid, True, fn, "calls examined on the wait path", where="", how="%d calls in %d functions" % (ncalls, len(seen)), nontrivial=False)
+        # ---- V7: the codes V3 dispatches on arrive as codes
+        e_rpc_error_kept(C, rep, pfx + "-V7")
         # ---- V1
         rid = pfx + "-V1"
         rep.rule(rid, "a returned preimage is the payment_preimage of a COMPLETE-listed part or of a successful waitsendpay")
